@@ -214,6 +214,10 @@ func c08CheckList(c *Case, list []c08Entry, draws []float64) (*c08Obs, []Violati
 			vs = append(vs, viol(c, "C08/rejected", "request with p=0 rejected: %s", e3))
 			continue
 		}
+		if len(o3.resp.Biases) != len(enabled) {
+			vs = append(vs, viol(c, "C08/entry-count", "with applyProbability 0 at position %d the response has %d bias entries for %d enabled biases", i, len(o3.resp.Biases), len(enabled)))
+			continue
+		}
 		same := bytes.Equal(o.result, o3.result)
 		for j := range enabled {
 			if j != i && !bytes.Equal(J(o.resp.Biases[j]), J(o3.resp.Biases[j])) {
